@@ -234,9 +234,9 @@ def rand_selector(rng, n, tags, pred_masks, allow, depth=0):
 class Context:
     """one (mesh with tags, element, basis) and everything the model needs about it"""
 
-    def __init__(self, rng, kind, name, fac, maxcells):
+    def __init__(self, rng, kind, name, fac, maxcells, pt=None):
         from skfem.assembly import Basis
-        p, t, info = M.gen_raw(rng, kind, maxcells=maxcells)
+        p, t, info = M.gen_raw(rng, kind, maxcells=maxcells) if pt is None else (pt[0], pt[1], {'style': 'replay'})
         m = M.build(kind, p, t)
         self.kind, self.name, self.info = kind, name, info
         nf, nt, nv = m.facets.shape[1], m.t.shape[1], m.p.shape[1]
@@ -612,4 +612,22 @@ def run(ctx):
 
 
 def replay(ctx, data):
-    run(ctx)
+    """re-run the set-based oracle (closure, names, complement, default) on the recorded mesh and element"""
+    from .. import c04_elems as EL
+    inp = data['input']
+    if 'p' not in inp:
+        return run(ctx)
+    table = dict(EL.all_elements(inp['kind']))
+    table.update({n: f for k, n, f in _edge_facet_composites()})
+    rng = np_seed(ctx, 7)
+    c = Context(rng, inp['kind'], inp['element'], table[inp['element']], 0,
+                pt=(np.array(inp['p'], dtype=float), np.array(inp['t'])))
+    oracle_context(ctx, c, rng)
+    dnames = bfun_names(c)
+    for f in range(c.m.facets.shape[1]):
+        for nm in sorted(set(c.names)):
+            got = c.basis.get_dofs(np.array([f], dtype=np.int32)).all([nm]).tolist()
+            want = [d for d in sorted(closure_facets(c, [f])) if dnames[d] == nm]
+            if got != want:
+                ctx.fail(data['key'], f"get_dofs([{f}]).all([{nm!r}]) = {got}, DOFs of that name on the facet's closure: {want}", inp)
+    ctx.log('replay', data.get('key'), '->', [f['key'] for f in ctx.failures] or 'no failure on this tree')
